@@ -44,8 +44,15 @@ func levels() []level {
 		a.Signers, a.Attrs, a.Vals, a.DelSigners, a.DelRanks, a.MaxDel, a.DenseDates = 1, 1, 2, 1, 1, 1, true
 		a.valMap = []int{0, 3}
 	})
+	// four claims of two signers on one value: the same value added twice (once per signer, or
+	// at two dates), removed, and a later claim, so that historical queries replay the claims
+	repeat := with(full, func(a *Alphabet) {
+		a.Attrs, a.Vals, a.MaxDel, a.DenseDates, a.SymSig = 1, 1, 0, true, true
+		a.Types = []int{0, 1, 2}
+	})
 	if vk.Thorough() {
 		return []level{
+			{"k4-tag,{a},set/add/delv,nodel/dense,A~B", repeat, 4, false, false},
 			{"k1-full", full, 1, true, true},
 			{"k2-full", full, 2, true, true},
 			{"k3-full/dense,a~b", with(full, func(a *Alphabet) { a.DenseDates, a.SymVal = true, true }), 3, false, false},
@@ -63,6 +70,7 @@ func levels() []level {
 		{"k3-tag,del@t1/dense,a~b,A~B", with(full, func(a *Alphabet) { a.Attrs, a.DelRanks, a.DenseDates, a.SymVal, a.SymSig = 1, 1, true, true, true }), 3, false, false},
 		{"k2-tag,{a,empty}/dense", empty, 2, true, true},
 		{"k3-tag,{a,empty}/dense", empty, 3, false, true},
+		{"k4-tag,{a},set/add/delv,nodel/dense,A~B", repeat, 4, false, false},
 	}
 }
 
